@@ -54,7 +54,7 @@ def demo_targets(seed, meta):
     return out
 
 
-def validate(seed, name):
+def validate(seed, name, fast=False):
     meta = json.load(open(os.path.join(seed, "meta.json")))
     patch = os.path.join(seed, "patch.diff")
     wt = "/tmp/seedcheck/" + name
@@ -102,6 +102,8 @@ def validate(seed, name):
         res["demo_output_with_change"] = out1[-1800:]
         if rc2 != 0:
             res["demo_output_without_change"] = out2[-1500:]
+        if fast:
+            return res
         # remove the demo, re-apply, run the existing suite
         sh("git clean -fdq && git checkout -q -- .", cwd=wt)
         sh("git apply %s" % patch, cwd=wt)
@@ -164,7 +166,12 @@ def check(seed, name, prop, thorough):
 def main():
     mode, seed, name = sys.argv[1], sys.argv[2], sys.argv[3]
     os.makedirs(OUT, exist_ok=True)
-    if mode == "validate":
+    if mode == "revalidate":
+        # fast: applies / builds / demonstration fails with and passes without the change (no suite run)
+        res = validate(seed, name, fast=True)
+        json.dump(res, open(os.path.join(OUT, name + ".revalidate.json"), "w"), indent=1)
+        print(name, json.dumps({k: v for k, v in res.items() if k in ("patch_applies", "builds", "demo_fails_with_change", "demo_passes_without_change", "error")}))
+    elif mode == "validate":
         res = validate(seed, name)
         json.dump(res, open(os.path.join(OUT, name + ".validate.json"), "w"), indent=1)
         print(name, json.dumps({k: v for k, v in res.items() if k in ("patch_applies", "builds", "demo_fails_with_change", "demo_passes_without_change", "suite_passes_with_change", "suite_failures_persisting", "error")}))
